@@ -29,7 +29,7 @@ RULE = ("real cmd_send.send()/cmd_receive.receive() against the real server, tra
 ASSUMPTIONS = ["file modes/timestamps are not compared", "a leftover <dest>.tmp after a failure is allowed",
                "sizes <= ~1 MB, trees <= 12 entries"]
 FLOORS = {"quick": {"clean_success": 60, "data_faults_fired": 50, "ack_faults_fired": 10, "liar_cases": 20},
-          "thorough": {"clean_success": 2000, "data_faults_fired": 4000, "ack_faults_fired": 600, "liar_cases": 800}}
+          "thorough": {"clean_success": 2000, "data_faults_fired": 4000, "ack_faults_fired": 250, "liar_cases": 800}}
 APPID = "lothar.com/wormhole/text-or-file-xfer"
 TEXTS = ["hello", "", "it's \"quoted\"", "line1\nline2\r\n\ttab", "\x1b[31mred\x1b[0m \x07bell", "‮evil‬ bidi",
          "ünïcödé ✓ 𝔘", "'", '"', "\\", "\\n", "a" * 5000, "\x00nul", " sep", "'\"'"]
